@@ -124,5 +124,28 @@ func Harness_C03_order() {
 	for _, m := range mems {
 		vassert(log.count(m.name) == 1, "C01: every valid request's handler ran exactly once")
 	}
+	// C01 across several inbound messages: every call got exactly one response
+	// bearing its id, no notification got any, nothing was mixed up or lost
+	seen := map[string]int{}
+	total := 0
+	for _, b := range ch.sent {
+		out, ok := tokParse(b)
+		vassert(ok, "every outbound message is valid JSON")
+		elems, isArr := tokElems(out)
+		if !isArr {
+			elems = []json.RawMessage{out}
+		}
+		for _, e := range elems {
+			id, _ := tokMember(e, "id")
+			n, isInt := tokIntValue(id)
+			vassert(isInt, "response ids are the calls' ids")
+			seen[verifItoa(n)]++
+			total++
+		}
+	}
+	vassert(total == idn, "C01: one response per call in total, none for notifications")
+	for k := 1; k <= idn; k++ {
+		vassert(seen[verifItoa(k)] == 1, "C01: exactly one response for each call id")
+	}
 	reach("done")
 }
